@@ -260,7 +260,11 @@ impl AbsSeg {
 impl AbsMap {
   #[allow(clippy::too_many_arguments)]
   pub fn new(segs: Vec<AbsSeg>, nsrc: u8, nnames: u8, dup_names: bool, content_mode: u8, root: u8, src_base: u8, wild: bool) -> Self {
-    AbsMap { segs, nsrc: nsrc.clamp(1, 3), nnames: nnames.min(3), dup_names, content_mode: content_mode.min(2), root, src_base, wild }
+    AbsMap { segs, nsrc: nsrc.clamp(1, 3), nnames: nnames.min(3), dup_names, content_mode: content_mode.min(2), root, src_base, wild, allow_dups: false }
+  }
+  pub fn with_dups(mut self) -> Self {
+    self.allow_dups = true;
+    self
   }
 }
 
@@ -288,6 +292,8 @@ pub struct AbsMap {
   root: u8,
   src_base: u8,
   wild: bool,
+  /// keep a second segment at the same generated position (the first one then has zero extent)
+  allow_dups: bool,
 }
 
 pub fn abs_map(cfg: GenCfg) -> impl Strategy<Value = AbsMap> {
@@ -315,6 +321,7 @@ pub fn abs_map(cfg: GenCfg) -> impl Strategy<Value = AbsMap> {
         root,
         src_base,
         wild,
+        allow_dups: false,
       },
     )
 }
@@ -395,7 +402,19 @@ pub fn concretize_map(t: &str, am: &AbsMap, ascii: bool) -> MapSpec {
     let mut chosen: Vec<(usize, &AbsSeg)> =
       am.segs.iter().map(|a| (idx(a.pos, posn.len()), a)).collect();
     chosen.sort_by_key(|x| x.0);
-    chosen.dedup_by_key(|x| x.0);
+    if am.allow_dups {
+      // at most two segments per position, the second only now and then
+      let mut kept: Vec<(usize, &AbsSeg)> = vec![];
+      for c in chosen {
+        let same = kept.iter().filter(|k| k.0 == c.0).count();
+        if same == 0 || (same == 1 && c.1.ocol % 3 == 0) {
+          kept.push(c);
+        }
+      }
+      chosen = kept;
+    } else {
+      chosen.dedup_by_key(|x| x.0);
+    }
     for (pi, a) in chosen {
       let (l, c) = posn[pi];
       let orig = if a.mapped == 0 {
